@@ -1,4 +1,9 @@
-"""python -m vp.run <Cxx>: run props/<Cxx>.py:main(); engine errors exit 3 and are never a verdict."""
+"""python -m vp.run <Cxx>: run props/<Cxx>.py:main().
+An engine error (a construct of the code under analysis that the symbolic layer cannot carry, an unexpected path shape) is
+never a verdict.  If it happens after the property object exists, Layer P is recorded as ABORTED (UNDECIDED line, the
+obligations generated so far stay in the evidence, nothing is counted as discharged that was not), the bounded layer of the
+property still runs on the real code and decides: exit 1 if it finds a failing input, exit 0 otherwise.  Anything else
+(a crash before the property object exists, a crash of the bounded layer) is exit 3."""
 import sys, importlib, traceback
 from .sym import EngineError
 
@@ -10,14 +15,36 @@ def main():
         mod.main()
     except SystemExit:
         raise
-    except EngineError as e:
+    except BaseException as e:
         traceback.print_exc()
-        print('ENGINE-ERROR: %s: %s' % (pid, e), flush=True)
-        sys.exit(3)
-    except BaseException:
-        traceback.print_exc()
-        print('ENGINE-ERROR: %s crashed' % pid, flush=True)
-        sys.exit(3)
+        kind = 'engine error' if isinstance(e, EngineError) else 'crash of the symbolic layer (%s)' % type(e).__name__
+        from . import report, bounded
+        P = report.Prop.CURRENT
+        if P is None or P.pid != pid or getattr(P, 'finished', False) or getattr(P, 'in_bounded', False):
+            print('ENGINE-ERROR: %s: %s: %s' % (pid, kind, str(e)[:300]), flush=True)
+            sys.exit(3)
+        try:
+            line = 'UNDECIDED property=%s obligation=layer-P (aborted: %s: %s; %d obligations were generated before the abort; the bounded layer decides)' % (
+                pid, kind, str(e)[:160], len(P.obl))
+            P.lines.append(line)
+            print(line, flush=True)
+            P.obl.append(dict(name='layerP.completed', function='(symbolic layer)', path='abort', result='aborted: %s: %s' % (kind, str(e)[:200]), backend='vp engine', ms=0, undecided=True))
+            P.notes.append('Layer P aborted; verdict of this run rests on the bounded layer only')
+            P.in_bounded = True
+            try:
+                importlib.import_module('bounded.' + pid)
+                has_b = True
+            except ImportError:
+                has_b = False
+            if has_b:
+                bounded.report(P, 'bounded.' + pid)
+            P.finish('exploration')
+        except SystemExit:
+            raise
+        except BaseException:
+            traceback.print_exc()
+            print('ENGINE-ERROR: %s crashed in the fallback' % pid, flush=True)
+            sys.exit(3)
 
 
 if __name__ == '__main__':
